@@ -442,6 +442,13 @@ def _extra_np():
                 flip=flip, pad=pad, atleast_1d=atleast_1d, shape=shape_, ndim=ndim_, absolute=abs_, fabs=abs_)
 
 
+SUSPECT_TOLERANCE_TESTS = ('allclose', 'isclose')
+
+
+class SuspectConstruct(OutOfReach):
+    """not a tool limit: the traced code now branches on an approximate comparison of its data"""
+
+
 class _NS:
     """attribute container standing in for the numpy module"""
 
@@ -449,6 +456,10 @@ class _NS:
         # a numpy name the model does not implement is a tool limit (the obligation is then decided by the bounded
         # stand-in on the real code), not a crash of the checker and not an AttributeError of the traced code
         import numpy as _real
+        if name in SUSPECT_TOLERANCE_TESTS:
+            # a tolerance-based comparison that steers the computation makes the function discontinuous in its data:
+            # the contracts (exact identities for ALL inputs) cannot be re-established by tracing one side of it
+            raise SuspectConstruct('numpy.%s: tolerance-based test in traced code' % name)
         if hasattr(_real, name):
             raise OutOfReach('numpy.%s is not modelled' % name)
         raise AttributeError(name)
